@@ -129,6 +129,12 @@ Definition mon_entries (a : blockacc) (h : Z) (ob : obs) : bool :=
                     | None => false end) (a_exp a).
 Definition op_height (o : op) : Z := match o with OEnd h _ => h | _ => 0 end.
 
+Definition op_frozen (o : op) : bool :=
+  match o with
+  | OStake _ _ _ fz _ _ _ _ _ | OUnstake _ _ _ fz _ _ _ _ _ | OWithdraw _ _ _ fz _ => fz
+  | _ => false
+  end.
+
 Fixpoint go (c i : Z) (s : state) (g : ghosts) (a : blockacc) (l : list (op * expect)) (r : results) : results :=
   match l with
   | [] => r
@@ -144,6 +150,7 @@ Fixpoint go (c i : Z) (s : state) (g : ghosts) (a : blockacc) (l : list (op * ex
       let r := add_mm c i 1 (eqb ok ok_obs) r in
       let r := add_mm c i 2 (bal_delta o ok =? dbal) r in
       let r := add_mon c i 16 (negb (withdraw_sidestep s o fset && ok_obs)) r in
+      let r := add_mon c i 20 (negb (op_frozen o && ok_obs)) r in
       go c (i + 1) s' (ghost_step g o ok_obs dbal) (acc_step a o ok_obs) l' r
     | EBlock ob =>
       let r := add_mm c i 3 (cmp_zmap (eff s') (o_eff ob)) r in
